@@ -342,6 +342,7 @@ def run(ctx):
     ctx.log("negative control: %s" % negctl)
 
     # ---- 3. state level --------------------------------------------------------------------
+    ext_violations = len(violations)
     rows_st, ncases_st = run_state_level(ctx, violations)
     ctx.log("state level: %d cases, %d lines" % (ncases_st, len(rows_st)))
 
@@ -365,7 +366,7 @@ def run(ctx):
     need = ["set_ok", "set_notfound", "set_badrequest", "unset_ok", "unset_notfound", "get_val", "get_notfound",
             "commit_ok_changing", "commit_invalid", "begin"]
     missing = [k for k in need if not cls.get(k)]
-    if missing:
+    if missing and not ext_violations:     # a broken tree may make a class unreachable: report the violations
         raise InfraError("vacuity guard: real executions never produced: %s" % ", ".join(missing))
     cls_st = {}
     for r in rows_st:
